@@ -338,12 +338,15 @@ def relocating_finish(fns):
 
 def drop_tables(fns):
     a, dels = _publish_then_delete(fns, r"^fn drop_tables\(",
-                                   "O5.3c/O16.4a drop_tables: delete only after publish; an Err return means nothing was published", True)
+                                   "O5.3c drop_tables: tables / blob files marked deleted only after the version without them is published", False)
     if not dels:
         raise MirError("drop_tables: no mark_as_deleted call found")
-    # reclaim half of C20: once published, every Ok return has passed the mark_as_deleted loops
-    fn = a.fn
-    ok_ret, _ = ret_blocks(fn)
+    return [a]
+
+
+def drop_tables_err_clean(fns):
+    a, dels = _publish_then_delete(fns, r"^fn drop_tables\(",
+                                   "O16.4a drop_tables: an Err return means nothing was published (a drop changes what readers see)", True)
     return [a]
 
 
@@ -515,7 +518,7 @@ SPECS = {
     "O5.3": [standard_finish, relocating_finish, drop_tables],
     "O16.1b": [upgrade_version],
     "O16.2": [merge_tables_hidden],
-    "O16.4": [drop_tables, move_tables],
+    "O16.4": [drop_tables_err_clean, move_tables],
     "O14.2": [ingestion_finish],
     "O20.3": [recover_levels],
 }
